@@ -850,3 +850,377 @@ func aliasOr(byName map[string]*yChord, alias, fallback string) string {
 	}
 	return fallback
 }
+
+// descPipelineByFolding folds `crd info attr describe` and `crd info chord describe` from the dictionary to the report:
+// the built-in attributes and chords go through chord.NewBuilder / Attribute / Chord / Build, then desc.NewAttribute(map)
+// .Describe(name, root, preference) is folded for every attribute on all 21 root spellings with both preferences, and
+// desc.NewChord(map, attr).Describe(symbol, root, preference) for every symbol, by name and by display, on three roots:
+// the reported size is the interval's, the reported note is root + interval spelled natural when possible and otherwise
+// with the requested accidental, the octave offset is floor((root + size) / 12), the root is reported as given, a chord
+// lists its attributes parent first, and an unknown name is refused. ok=false when something does not fold.
+func (c *Ctx) descPipelineByFolding() (string, int, bool) {
+	if c.descFold != nil {
+		return c.descFold.problem, c.descFold.n, c.descFold.ok
+	}
+	p, n, ok := c.descPipelineByFoldingUncached()
+	c.descFold = &foldVerdict{p, n, ok}
+	return p, n, ok
+}
+
+func (c *Ctx) descPipelineByFoldingUncached() (string, int, bool) {
+	debug := os.Getenv("CRDCHECK_DEBUG") != ""
+	chords, attrs, okD := c.loadDictionaries()
+	nb, addA, addC, build := c.fn("chord", "NewBuilder"), c.fn("chord", "Builder.Attribute"), c.fn("chord", "Builder.Chord"), c.fn("chord", "Builder.Build")
+	na, nc, ad, cd := c.fn("desc", "NewAttribute"), c.fn("desc", "NewChord"), c.fn("desc", "Attribute.Describe"), c.fn("desc", "Chord.Describe")
+	if !okD || nb == nil || addA == nil || addC == nil || build == nil || na == nil || nc == nil || ad == nil || cd == nil || len(ad.Params) != 4 || len(cd.Params) != 4 {
+		return "", 0, false
+	}
+	fail := func(what string, err error, v fval) (string, int, bool) {
+		if debug {
+			fmt.Fprintf(os.Stderr, "descPipelineByFolding: %s does not fold: %v %s\n", what, err, v.String())
+		}
+		return "", 0, false
+	}
+	dnames := c.enumConsts("note", "DegreeName")
+	names := c.enumConsts("note", "Name")
+	accs := c.enumConsts("note", "Accidental")
+	nameOf, accOf := map[int64]string{}, map[int64]string{}
+	for k, v := range names {
+		nameOf[v] = k
+	}
+	for k, v := range accs {
+		accOf[v] = k
+	}
+	nameOfQuality := map[Quality]string{}
+	for dn, q := range degreeNameQuality {
+		nameOfQuality[q] = dn
+	}
+	degreeV := func(n int, q Quality) fval {
+		return fval{fields: map[string]fval{"Value": {k: constant.MakeInt64(int64(n)), t: types.Typ[types.Uint]}, "Name": {k: constant.MakeInt64(dnames[nameOfQuality[q]])}}}
+	}
+	strV := func(s string) fval { return fval{k: constant.MakeString(s), t: types.Typ[types.String]} }
+	fd := c.newFolder()
+	fd.maxSteps = 4000000
+	fd.maxDepth = 16
+	b, err := fd.foldCall(nb, nil)
+	if err != nil || b.addr == nil {
+		return fail("NewBuilder", err, b)
+	}
+	heap := fd.heap
+	attrSize := map[string]int{}
+	for _, a := range attrs {
+		n, q, ok := specParseInterval(a.Degree)
+		if !ok {
+			return "", 0, false // the dictionary rules report that
+		}
+		if s, valid := specSize(n, q); valid {
+			attrSize[a.Name] = s
+		}
+		fd.steps = 0
+		if _, err := fd.foldCallEnv(addA, []fval{b, {fields: map[string]fval{"Name": strV(a.Name), "Degree": degreeV(n, q)}}}, nil, heap); err != nil {
+			return fail("Builder.Attribute", err, top)
+		}
+	}
+	byName := map[string]*yChord{}
+	for i := range chords {
+		ch := &chords[i]
+		byName[ch.Name] = ch
+		l := &ListV{T: types.NewSlice(types.Typ[types.String])}
+		for _, a := range ch.Attributes {
+			l.Elems = append(l.Elems, &CVal{V: constant.MakeString(a), T: types.Typ[types.String]})
+		}
+		at := fval{cv: l, t: l.T}
+		if len(ch.Attributes) == 0 {
+			at = fval{isNil: true, t: l.T}
+		}
+		cv := fval{fields: map[string]fval{"Name": strV(ch.Name), "Meta": {fields: map[string]fval{"Display": strV(ch.Meta.Display)}}, "Attributes": at, "Extends": strV(ch.Extends)}}
+		fd.steps = 0
+		if _, err := fd.foldCallEnv(addC, []fval{b, cv}, nil, heap); err != nil {
+			return fail("Builder.Chord", err, top)
+		}
+	}
+	recvB := b
+	if _, isPtr := build.Params[0].Type().Underlying().(*types.Pointer); !isPtr {
+		recvB = fd.deref(b)
+	}
+	fd.steps = 0
+	mr, err := fd.foldCallEnv(build, []fval{recvB}, nil, heap)
+	if err != nil || len(mr.tuple) != 2 || !mr.tuple[1].isNil {
+		return fail("Builder.Build", err, mr)
+	}
+	cmap := mr.tuple[0]
+	fd.steps = 0
+	aobj, err := fd.foldCallEnv(na, []fval{cmap}, nil, heap)
+	if err != nil || aobj.addr == nil {
+		return fail("desc.NewAttribute", err, aobj)
+	}
+	fd.steps = 0
+	cobj, err := fd.foldCallEnv(nc, []fval{cmap, aobj}, nil, heap)
+	if err != nil || cobj.addr == nil {
+		return fail("desc.NewChord", err, cobj)
+	}
+	recvOf := func(fn *ssa.Function, obj fval) fval {
+		if _, isPtr := fn.Params[0].Type().Underlying().(*types.Pointer); !isPtr {
+			return fd.deref(obj)
+		}
+		return obj
+	}
+	accSemi := map[string]int{"Natural": 0, "Sharp": 1, "Flat": -1}
+	white := map[int]string{}
+	for _, l := range specLetters {
+		white[specNatural(l)] = l
+	}
+	noteV := func(l, a string) fval {
+		return fval{fields: map[string]fval{"Name": {k: constant.MakeInt64(names[l])}, "Accidental": {k: constant.MakeInt64(accs[a])}}}
+	}
+	isNote := func(v fval, l, a string) bool {
+		if v.fields == nil || v.fields["Name"].k == nil || v.fields["Accidental"].k == nil {
+			return false
+		}
+		gn, _ := constant.Int64Val(v.fields["Name"].k)
+		ga, _ := constant.Int64Val(v.fields["Accidental"].k)
+		return nameOf[gn] == l && accOf[ga] == a
+	}
+	intOf := func(v fval) (int64, bool) {
+		if v.k == nil || v.k.Kind() != constant.Int {
+			return 0, false
+		}
+		x, _ := constant.Int64Val(v.k)
+		return x, true
+	}
+	// checkInfo compares one *AttributeInfo with the model; "" when it agrees, "?" when it cannot be read
+	checkInfo := func(info fval, size int, l, a string, sharp bool) string {
+		if info.fields == nil {
+			return "?"
+		}
+		sum := specNatural(l) + accSemi[a] + size
+		pc := ((sum % 12) + 12) % 12
+		oct := (sum - pc) / 12
+		wl, wa := "", "Natural"
+		if w, isWhite := white[pc]; isWhite {
+			wl = w
+		} else if sharp {
+			wl, wa = white[pc-1], "Sharp"
+		} else {
+			wl, wa = white[pc+1], "Flat"
+		}
+		semi, ok1 := intOf(info.fields["Semitone"])
+		semiW, ok2 := intOf(info.fields["SemitoneWithoutOctave"])
+		od, ok3 := intOf(info.fields["OctaveDiff"])
+		if !ok1 || !ok2 || !ok3 || info.fields["Root"].fields == nil || info.fields["Applied"].fields == nil {
+			return "?"
+		}
+		switch {
+		case semi != int64(size):
+			return fmt.Sprintf("the size is reported as %d semitones, want %d", semi, size)
+		case semiW != int64(((size%12)+12)%12):
+			return fmt.Sprintf("the size without octaves is reported as %d, want %d", semiW, ((size%12)+12)%12)
+		case !isNote(info.fields["Root"], l, a):
+			return "the root is not reported as it was given (" + info.fields["Root"].String() + ")"
+		case !isNote(info.fields["Applied"], wl, wa):
+			return fmt.Sprintf("the resulting note is reported as %s, want %s %s (root + interval, natural when possible, otherwise the requested accidental)", info.fields["Applied"].String(), wl, wa)
+		case od != int64(oct):
+			return fmt.Sprintf("the octave offset is reported as %d, want %d", od, oct)
+		}
+		return ""
+	}
+	n := 0
+	recvA, recvC := recvOf(ad, aobj), recvOf(cd, cobj)
+	for _, at := range attrs {
+		size, valid := attrSize[at.Name]
+		if !valid {
+			continue
+		}
+		for _, l := range specLetters {
+			for _, a := range []string{"Natural", "Sharp", "Flat"} {
+				for _, sharp := range []bool{false, true} {
+					fd.steps = 0
+					fd.incomplete, fd.failedCalls = nil, nil
+					r, err := fd.foldCallEnv(ad, []fval{recvA, strV(at.Name), noteV(l, a), {k: constant.MakeBool(sharp), t: types.Typ[types.Bool]}}, nil, heap)
+					if err != nil || len(r.tuple) != 2 || !(r.tuple[1].isNil || r.tuple[1].nonNil) || len(fd.incomplete) > 0 {
+						return fail("Attribute.Describe("+at.Name+")", err, r)
+					}
+					what := fmt.Sprintf("the attribute %s on %s%s (sharp preferred=%v)", at.Name, l, accSemi2(a), sharp)
+					n++
+					if r.tuple[1].nonNil {
+						return what + " is refused", n, true
+					}
+					info := fd.deref(r.tuple[0])
+					p := checkInfo(info, size, l, a, sharp)
+					if p == "?" {
+						return fail("reading the description of "+at.Name, nil, info)
+					}
+					if p == "" && (info.fields["Attribute"].fields == nil || info.fields["Attribute"].fields["Name"].k == nil || constant.StringVal(info.fields["Attribute"].fields["Name"].k) != at.Name) {
+						p = "the attribute described is not the one asked for"
+					}
+					if p != "" {
+						return what + ": " + p, n, true
+					}
+				}
+			}
+		}
+	}
+	fd.steps = 0
+	if r, err := fd.foldCallEnv(ad, []fval{recvA, strV("NoSuchAttribute"), noteV("C", "Natural"), {k: constant.MakeBool(true), t: types.Typ[types.Bool]}}, nil, heap); err != nil || len(r.tuple) != 2 || !(r.tuple[1].isNil || r.tuple[1].nonNil) {
+		return fail("Attribute.Describe(unknown)", err, r)
+	} else if r.tuple[1].isNil {
+		return "an attribute name that is not in the dictionary is described instead of being refused", n, true
+	}
+	for i := range chords {
+		ch := &chords[i]
+		sizes, rerr := resolveChord(ch.Name, byName, attrSize, map[string]bool{})
+		if rerr != nil {
+			return "", 0, false // the dictionary rules report that
+		}
+		for _, lookup := range []string{ch.Name, ch.Meta.Display} {
+			if lookup == "" && ch.Name != "MajorTriad" {
+				continue
+			}
+			for ri, root := range [][2]string{{"C", "Natural"}, {"F", "Sharp"}, {"B", "Flat"}} {
+				sharp := ri%2 == 0
+				fd.steps = 0
+				fd.incomplete, fd.failedCalls = nil, nil
+				r, err := fd.foldCallEnv(cd, []fval{recvC, strV(lookup), noteV(root[0], root[1]), {k: constant.MakeBool(sharp), t: types.Typ[types.Bool]}}, nil, heap)
+				if err != nil || len(r.tuple) != 2 || !(r.tuple[1].isNil || r.tuple[1].nonNil) || len(fd.incomplete) > 0 {
+					return fail("Chord.Describe("+lookup+")", err, r)
+				}
+				what := fmt.Sprintf("the chord %q on %s%s (sharp preferred=%v)", lookup, root[0], accSemi2(root[1]), sharp)
+				n++
+				if r.tuple[1].nonNil {
+					return what + " is refused", n, true
+				}
+				info := fd.deref(r.tuple[0])
+				if info.fields == nil || info.fields["Chord"].fields == nil || info.fields["Chord"].fields["Name"].k == nil {
+					return fail("reading the description of "+lookup, nil, info)
+				}
+				if got := constant.StringVal(info.fields["Chord"].fields["Name"].k); got != ch.Name {
+					return fmt.Sprintf("%s: the chord described is %s, want %s", what, got, ch.Name), n, true
+				}
+				if !isNote(info.fields["Root"], root[0], root[1]) {
+					return what + ": the root is not reported as it was given", n, true
+				}
+				es, ok := fd.sliceElems(info.fields["Attributes"], heap)
+				if !ok {
+					return fail("reading the attributes of "+lookup, nil, info.fields["Attributes"])
+				}
+				if len(es) != len(sizes) {
+					return fmt.Sprintf("%s: %d attributes are described, the chord has %d (inherited ones included)", what, len(es), len(sizes)), n, true
+				}
+				for j, e := range es {
+					ai := fd.deref(e)
+					p := checkInfo(ai, sizes[j], root[0], root[1], sharp)
+					if p == "?" {
+						return fail("reading attribute "+fmt.Sprint(j)+" of "+lookup, nil, ai)
+					}
+					if p != "" {
+						return fmt.Sprintf("%s, attribute %d (parent first): %s", what, j, p), n, true
+					}
+				}
+			}
+		}
+	}
+	fd.steps = 0
+	if r, err := fd.foldCallEnv(cd, []fval{recvC, strV("NoSuchChord"), noteV("C", "Natural"), {k: constant.MakeBool(true), t: types.Typ[types.Bool]}}, nil, heap); err != nil || len(r.tuple) != 2 || !(r.tuple[1].isNil || r.tuple[1].nonNil) {
+		return fail("Chord.Describe(unknown)", err, r)
+	} else if r.tuple[1].isNil {
+		return "a chord symbol that is not in the dictionary is described instead of being refused", n, true
+	}
+	return "", n, true
+}
+
+// descKeyByFolding folds `crd info key describe` from the scale to the report for the 28 keys: desc.NewKey().Describe(
+// op.NewScale(key)) reports that very scale, and as triads and sevenths what op.NewDiatonicChorder(scale).Triads() and
+// .Sevenths() answer for it (those are decided by TAB-DIATONIC). ok=false when something does not fold.
+func (c *Ctx) descKeyByFolding() (string, int, bool) {
+	if c.descKeyFold != nil {
+		return c.descKeyFold.problem, c.descKeyFold.n, c.descKeyFold.ok
+	}
+	p, n, ok := c.descKeyByFoldingUncached()
+	c.descKeyFold = &foldVerdict{p, n, ok}
+	return p, n, ok
+}
+
+func (c *Ctx) descKeyByFoldingUncached() (string, int, bool) {
+	debug := os.Getenv("CRDCHECK_DEBUG") != ""
+	newScale, ctor, tri, sev := c.fn("op", "NewScale"), c.fn("op", "NewDiatonicChorder"), c.fn("op", "DiatonicChorderImpl.Triads"), c.fn("op", "DiatonicChorderImpl.Sevenths")
+	nk, kd := c.fn("desc", "NewKey"), c.fn("desc", "Key.Describe")
+	if newScale == nil || ctor == nil || tri == nil || sev == nil || nk == nil || kd == nil || len(kd.Params) != 2 || len(tri.Params) != 1 || len(sev.Params) != 1 {
+		return "", 0, false
+	}
+	fail := func(what string, err error, v fval) (string, int, bool) {
+		if debug {
+			fmt.Fprintf(os.Stderr, "descKeyByFolding: %s does not fold: %v %s\n", what, err, v.String())
+		}
+		return "", 0, false
+	}
+	names := c.enumConsts("note", "Name")
+	accs := c.enumConsts("op", "Accidental")
+	n := 0
+	for _, key := range requiredKeys() {
+		accName := "Natural"
+		switch strings.TrimSuffix(key[1:], "m") {
+		case "#":
+			accName = "Sharp"
+		case "b":
+			accName = "Flat"
+		}
+		kv := fval{fields: map[string]fval{"Name": {k: constant.MakeInt64(names[key[:1]])}, "Accidental": {k: constant.MakeInt64(accs[accName])}, "Minor": {k: constant.MakeBool(strings.HasSuffix(key, "m"))}}}
+		fd := c.newFolder()
+		fd.maxSteps = 200000
+		fd.maxDepth = 12
+		sr, err := fd.foldCall(newScale, []fval{kv})
+		if err != nil || len(sr.tuple) != 2 || !sr.tuple[1].isNil || sr.tuple[0].addr == nil {
+			return fail("NewScale("+key+")", err, sr)
+		}
+		heap := fd.heap
+		scale := sr.tuple[0]
+		// the reference: the chorder asked directly
+		fd.steps = 0
+		cr, err := fd.foldCallEnv(ctor, []fval{scale}, nil, heap)
+		if err != nil || !cr.known() {
+			return fail("NewDiatonicChorder("+key+")", err, cr)
+		}
+		want := map[string]string{}
+		for label, api := range map[string]*ssa.Function{"Triads": tri, "Sevenths": sev} {
+			recv := cr
+			if _, isPtr := api.Params[0].Type().Underlying().(*types.Pointer); !isPtr {
+				recv = fd.deref(cr)
+			}
+			fd.steps = 0
+			r, err := fd.foldCallEnv(api, []fval{recv}, nil, heap)
+			if err != nil || r.fields == nil {
+				return fail(label+"("+key+")", err, r)
+			}
+			want[label] = fd.describeDeep(r, 0)
+		}
+		fd.steps = 0
+		ko, err := fd.foldCallEnv(nk, nil, nil, heap)
+		if err != nil || ko.addr == nil {
+			return fail("desc.NewKey", err, ko)
+		}
+		recv := ko
+		if _, isPtr := kd.Params[0].Type().Underlying().(*types.Pointer); !isPtr {
+			recv = fd.deref(ko)
+		}
+		fd.steps = 0
+		fd.incomplete = nil
+		r, err := fd.foldCallEnv(kd, []fval{recv, scale}, nil, heap)
+		if err != nil || r.fields == nil || r.fields["Diatonic"].fields == nil || len(fd.incomplete) > 0 {
+			return fail("desc.Key.Describe("+key+")", err, r)
+		}
+		n++
+		if s := r.fields["Scale"]; s.addr == nil || s.addr.base != scale.addr.base || len(s.addr.path) != len(scale.addr.path) {
+			return fmt.Sprintf("in %s the scale reported is not the scale that was described", key), n, true
+		}
+		for _, label := range []string{"Triads", "Sevenths"} {
+			got := fd.describeDeep(r.fields["Diatonic"].fields[label], 0)
+			if got != want[label] {
+				return fmt.Sprintf("in %s the %s reported are %s, the scale's are %s", key, strings.ToLower(label), got, want[label]), n, true
+			}
+		}
+		if want["Triads"] == want["Sevenths"] {
+			return "", 0, false
+		}
+	}
+	return "", n, true
+}
